@@ -5,6 +5,7 @@ import Sop.Lemmas.CommitSuccess
 import Sop.Lemmas.CommitPhase2Fail
 import Sop.Lemmas.CommitPhase2After
 import Sop.Lemmas.CommitCount
+import Sop.Lemmas.CommitNew
 /-!
 # C01 — a committed transaction's changes appear all-or-nothing across every store
 
@@ -169,6 +170,18 @@ theorem C01_ok_every_updated_node_advances (s0 : State) (w : WS) (fresh0 : List 
   by_cases hz : h.inactive = 0
   · exact .inl hz
   · exact .inr (hnew h hm hz)
+
+/-- **…every NEW node is visible**: after a commit that returned ok the first root of an empty store reads at
+version 0 and every node added by a split at version 1, each under the blob written for it — nothing in phase 2 or in
+the cleanup touches them (`Pre3`: the new ids are distinct and no obsolete value blob carries one of them). -/
+theorem C01_ok_new_nodes_visible (s0 : State) (w : WS) (fresh0 : List (UUID × UUID)) (pre : Pre s0 w fresh0)
+    (pre2 : Pre2 s0 w fresh0) (p3 : Pre3 w) (fault : Option Fault) (tid : Tid) (n : Nat) (r2 : Run)
+    (ht : w.hasTracked = true)
+    (hok : commit w n { s := s0, tid := tid, fault := fault, fresh := fresh0 } = (.ok, r2)) :
+    (∀ i ∈ w.rootIds, r2.s.view i = some (i, 0)) ∧ (∀ i ∈ w.addedIds, r2.s.view i = some (i, 1)) :=
+  commit_ok_new_nodes pre pre2 p3 fault tid n r2 ht hok
+
+example : Pre3 Witness.wSplit := ⟨by decide, by intro i _ hm; simp [WS.obsoleteValues, Witness.wSplit] at hm⟩
 
 /-- **…and the store counts move by exactly the write set's deltas, in every store at once**: after a commit that
 returned ok (under any tolerated fault) the count of every store is its old count plus that store's delta — the one
